@@ -1067,6 +1067,18 @@ Proof.
     eapply DInv_reach; [apply DInv_init|eapply DriverTrans.drun_reach; exact E].
   - split; vm_compute; [discriminate|reflexivity].
 Qed.
+(* the state right after the failure was reported under fail-fast: token set, file 0 running with two sessions, file 2 idle *)
+Example nv_C19_driver_quiet_after_cancel :
+  DriverTrans.reach drv_cf drv_mid drv_final (snd (drun drv_cf drv_mid (skipn 21 drv_sched))) /\ d_token drv_mid = true /\
+  d_reported drv_final = d_reported drv_mid ++ [(c17_dbk, RSkipped); (c17_db1, RCancelled)].
+Proof.
+  split; [|split; vm_compute; reflexivity].
+  assert (E : drun drv_cf drv_mid (skipn 21 drv_sched) = (drv_final, snd (drun drv_cf drv_mid (skipn 21 drv_sched)))) by (vm_compute; reflexivity).
+  exact (DriverTrans.drun_reach _ _ _ _ _ E).
+Qed.
+Example nv_C19_driver_fates_after_cancel : d_token drv_mid = true /\ d_reported drv_mid = [(c17_db2, RErr false)].
+Proof. split; vm_compute; reflexivity. Qed.
+
 Example nv_C19_driver_never_doomed :
   (0 < c_jobs drv_cf)%nat /\
   drun drv_cf (dst0 drv_cf) (firstn 21 drv_sched) = (drv_mid, snd (drun drv_cf (dst0 drv_cf) (firstn 21 drv_sched))).
